@@ -1,6 +1,7 @@
 // c18: correspondence harness for the log buffer (property C18).
 // Generates operation sequences, runs them on pclog.ProcessLogBuffer, and writes
-//   <out>/cases_C18.v   (Gallina: what was observed)       <out>/cases_C18.json (the same, for replays)
+//
+//	<out>/cases_C18.v   (Gallina: what was observed)       <out>/cases_C18.json (the same, for replays)
 package main
 
 import (
@@ -18,11 +19,11 @@ import (
 )
 
 type Op struct {
-	K    string `json:"k"` // w, sub, subp, unsub, close, range
-	X    uint64 `json:"x,omitempty"`
-	ID   uint64 `json:"id,omitempty"`
-	A    int64  `json:"a,omitempty"` // tail / offset
-	B    int64  `json:"b,omitempty"` // limit
+	K  string `json:"k"` // w, sub, subp, unsub, close, range
+	X  uint64 `json:"x,omitempty"`
+	ID uint64 `json:"id,omitempty"`
+	A  int64  `json:"a,omitempty"` // tail / offset
+	B  int64  `json:"b,omitempty"` // limit
 }
 
 type Case struct {
@@ -44,10 +45,13 @@ type observer struct {
 	lines []string
 }
 
-func (o *observer) WriteString(line string) (int, error) { o.lines = append(o.lines, line); return len(line), nil }
-func (o *observer) SetLines(lines []string)               { o.lines = append(o.lines, lines...) }
-func (o *observer) GetTailLength() int                    { return o.tail }
-func (o *observer) GetUniqueID() string                   { return o.id }
+func (o *observer) WriteString(line string) (int, error) {
+	o.lines = append(o.lines, line)
+	return len(line), nil
+}
+func (o *observer) SetLines(lines []string) { o.lines = append(o.lines, lines...) }
+func (o *observer) GetTailLength() int      { return o.tail }
+func (o *observer) GetUniqueID() string     { return o.id }
 
 func lineOf(x uint64) string { return fmt.Sprintf("L%d", x) }
 func idOf(s string) uint64 {
